@@ -32,6 +32,7 @@ def run(chk):
         abnormal(chk, repo, sp)
         hunt3(chk, repo, sp)
         hunt4(chk, repo, sp)
+        hunt5(chk, repo, sp)
     # the client session hears about a lost connection through the reader the protocol holds: connection_lost() feeds it EOF, which is what
     # wakes a parked receive() with CLOSED / 1006 - so nothing but connection_lost() itself (after that) and set_parser() may drop the reader
     CPM = "aiohttp/client_proto.py"
@@ -336,7 +337,7 @@ def hunt4(chk, repo, sp):
     tests = [n for n in g.nodes if n.kind == "test" and norm.raw(n.ast) == "self._closed"]
     early = [n for n in g.nodes if n.kind == "stmt" and isinstance(n.ast, ast.Return) and isinstance(n.ast.value, ast.Constant) and n.ast.value.value is False]
     waits = [n for n in g.nodes if n.ast is not None and any(isinstance(a, ast.Await) for a in ast.walk(n.ast)) and n.kind == "stmt"]
-    if side == "server":
+    if True:  # both classes since the fifth hunt (F307: the client had nothing like the server's _close_done)
         if not tests or not early:
             chk.analysis_error(f"C13.wait: the `if self._closed: return False` of {cn}.close() was not found")
         else:
@@ -357,6 +358,64 @@ def hunt4(chk, repo, sp):
         else:
             chk.violation("C13.heartbeat", v, K.short(v, 60), "if self._need_heartbeat_reset: return",
                           f"{tag} _on_data_received() only marks the heartbeat for reset and defers the reset with call_soon; asyncio runs I/O callbacks before the timers due in the same iteration, so a PONG read in the iteration of the deadline is ignored: the connection is closed with 1006 `No PONG received` although the PONG is in hand")
+
+
+def hunt5(chk, repo, sp):
+    """Rules written after the fifth defect hunt (F306, F308, F309)."""
+    mod, cn, side = sp["mod"], sp["cls"], sp["side"]
+    cls = repo.cls(mod, cn)
+    close, recv = K.with_tail_delegate(cls, "close"), cls.methods["receive"]
+    tag = f"[{side}]"
+    g = cfg_of(close.node)
+    # ---- C13.wake (takeover by the woken task): close() defers to the close() that is between waking the receiver and going on ------------------------------
+    # Where close() marks only `_closing` before it wakes the parked receive() (client), the woken task leaves its loop and may call close() -
+    # through `async with` - before the waker resumes: it must not find the session open and send Close(1000) over the caller's code.
+    sets_wait = [a for a in ast.walk(close.node) if isinstance(a, ast.Assign) and norm.raw(a.targets[0]) == "self._close_wait" and not (isinstance(a.value, ast.Constant) and a.value.value is None)]
+    latch_before_wake = False
+    if sets_wait:
+        swn = [n for n in g.nodes if n.in_finally_copy is None and n.ast is sets_wait[0]]
+        latches = [n for n in g.nodes if n.kind == "stmt" and isinstance(getattr(n, "ast", None), ast.AST) and (K.node_has(n, "self._set_closed()") or norm.raw(n.ast) == "self._closed = True")]
+        latch_before_wake = bool(swn) and bool(latches) and g.find_path([g.entry], lambda n: n in swn, lambda n: n in latches, EXPLICIT) is None
+    if sets_wait and not latch_before_wake:
+        defer = [w for w in ast.walk(close.node) if isinstance(w, ast.While) and "self._close_wait is not None" in norm.raw(w.test) and any(isinstance(a, ast.Await) for a in ast.walk(w))]
+        tests = [i for i in ast.walk(close.node) if isinstance(i, ast.If) and norm.raw(i.test) == "self._closed"]
+        if defer and tests and defer[0].lineno < tests[0].lineno:
+            chk.ok("C13.wake", defer[0], f"{tag} close(): while another task's close() is between waking receive() and resuming (_close_wait set, nobody waiting), this call yields: the waker goes on with its own code and message")
+        else:
+            chk.violation("C13.wake", sets_wait[0], K.short(sets_wait[0]), "while self._close_wait is not None and not self._waiting: await asyncio.sleep(0)   before `if self._closed`",
+                          f"{tag} task B calls ws.close(code=4001, message=b'bye') while the main task runs `async with session.ws_connect() as ws: async for msg in ws`: B wakes the parked receive() before it latches _closed; the woken task leaves the loop and the context manager's close() finds the session open and sends Close(1000, b'') - the server sees 1000 instead of 4001 and B's close() returns False with close_code None")
+    # ---- C13.closewait.ping (F308): the wait for the peer's CLOSE still answers PING ------------------------------------------------------------------------------
+    loops = [l for l in ast.walk(close.node) if isinstance(l, ast.While) and any(isinstance(a, ast.Await) and norm.raw(a.value) in ("self._reader.read()", "reader.read()") for a in ast.walk(l))]
+    if not loops:
+        chk.analysis_error(f"C13.closewait.ping: the loop that waits for the peer's CLOSE was not found in {cn}.close()")
+    else:
+        pongs = [c for c in prog.calls_in(loops[0]) if norm.raw(c.func) in ("self.pong", "self._writer.send_frame") and any(l.pos and "PING" in l.text for l in PC.units(PC.pc(K.stmt_of(c), stop=loops[0], raw=True)))]
+        if pongs:
+            chk.ok("C13.closewait.ping", pongs[0], f"{tag} close(): a PING that arrives before the peer's CLOSE is answered (RFC 6455 5.5.2)")
+        else:
+            chk.violation("C13.closewait.ping", loops[0], K.short(loops[0], 60), "if msg.type is WSMsgType.PING: await self.pong(msg.data)",
+                          f"{tag} the wait loop of close() discards every frame that is not CLOSE and never answers PING: if the closing side is busy for 1.5 x the peer's heartbeat while the peer's CLOSE sits unread, the peer's pong timer fires and aborts with 1006 `No PONG received` - both ends of a clean close report 1006")
+    # ---- C13.timeout.receive (F309): the receive timeout is one deadline for the call ----------------------------------------------------------------------------
+    rl = [l for l in ast.walk(recv.node) if isinstance(l, ast.While)]
+    scopes = [w for w in ast.walk(recv.node) if isinstance(w, ast.AsyncWith)]
+    rel = [w for w in scopes if any(norm.raw(it.context_expr.func) in ("async_timeout.timeout", "asyncio.timeout") for it in w.items if isinstance(it.context_expr, ast.Call))
+           and any(x is w for l in rl for x in ast.walk(l))
+           and not any(isinstance(it.context_expr, ast.Call) and it.context_expr.args and isinstance(it.context_expr.args[0], ast.Constant) and it.context_expr.args[0].value is None for it in w.items)]
+    if rel:
+        chk.violation("C13.timeout.receive", rel[0], K.short(rel[0].items[0].context_expr), "deadline = loop.time() + receive_timeout  before the loop; async_timeout.timeout_at(deadline)",
+                      f"{tag} every read inside the receive() loop gets a fresh timeout(receive_timeout), and the loop starts over after an auto-answered PING or a skipped PONG: with a heartbeat shorter than the receive timeout (30 s / 60 s) - or a peer that only sends PINGs - TimeoutError can never be raised")
+    else:
+        abs_ = [w for w in scopes if any(isinstance(it.context_expr, ast.Call) and norm.raw(it.context_expr.func) in ("async_timeout.timeout_at", "asyncio.timeout_at") for it in w.items)]
+        if abs_:
+            dn = norm.raw(abs_[0].items[0].context_expr.args[0])
+            dd = [d for d in norm.fn_defs(recv.node).def_nodes(dn)] if dn.isidentifier() else []
+            inside = any(any(x is d for l in rl for x in ast.walk(l)) for d in dd)
+            if dd and not inside:
+                chk.ok("C13.timeout.receive", abs_[0], f"{tag} receive(): the reads and the automatic PONG share one deadline computed before the loop")
+            else:
+                chk.violation("C13.timeout.receive", abs_[0], K.short(abs_[0].items[0].context_expr), "deadline computed once, before the loop", f"{tag} the deadline of receive() is computed anew inside the loop: PING/PONG traffic re-arms the timeout")
+        else:
+            chk.ok("C13.timeout.receive", recv, f"{tag} receive() has no relative timeout scope inside its loop")
 
 
 def hunt3(chk, repo, sp):
